@@ -120,7 +120,7 @@ def ac_segments(script):
     return [s for s in segs if s]
 
 
-def run_script(script, triple=(1, 2, 3), rq_reason=5, ac_reason=5, timeout=3, ordered=True):
+def run_script(script, triple=(1, 2, 3), rq_reason=5, ac_reason=5, timeout=3, ordered=True, in_handler=False):
     """One real association driven along `script`.  Returns the observation record for Trace_AssocLife."""
     sync = Sync(script, ordered)
     segs = ac_segments(script)
@@ -197,7 +197,7 @@ def run_script(script, triple=(1, 2, 3), rq_reason=5, ac_reason=5, timeout=3, or
 
     cl = ae_mod.ClientAE('CL', max_pdu_length=4096).add_scu(sc.verification_scu)
     cl.timeout = timeout
-    obs = {'script': list(script), 'ordered': ordered, 'values': {'triple': list(triple), 'rq_reason': rq_reason, 'ac_reason': ac_reason},
+    obs = {'script': list(script), 'ordered': ordered, 'in_handler': in_handler, 'values': {'triple': list(triple), 'rq_reason': rq_reason, 'ac_reason': ac_reason},
            'rqErr': {'type': 'none', 'f': []}, 'entered': False}
     rq_prog = [a for a in script if a.startswith('Rq')]
     R.asceprovider.Association.receive = receive
@@ -205,89 +205,98 @@ def run_script(script, triple=(1, 2, 3), rq_reason=5, ac_reason=5, timeout=3, or
         with R.Net() as net:
             net.register(ADDR, srv)
             mid = [0]
-            try:
-                sync.before('Rq', 'RqRequest')
-                sync.emit('Rq', 'RqRequest')
+            def rq_flow():
                 try:
-                    cm = cl.request_association(REMOTE)
-                    assoc = cm.__enter__()
-                except exceptions.AssociationRejectedError as e:
-                    sync.emit('Rq', 'RqAssocInd', res='RJ', f=[e.result, e.source, e.diagnostic])
-                    raise
-                except exceptions.AssociationAbortedError as e:
-                    sync.emit('Rq', 'RqAssocInd', res='AB', f=[e.source, e.reason_diag])
-                    raise
-                except exceptions.DCMTimeoutError:
-                    sync.emit('Rq', 'RqTimeout')
-                    raise
-                sync.emit('Rq', 'RqAssocInd', res='AC', f=[])
-                obs['entered'] = True
-                try:
-                    pcid = assoc.sop_classes_as_scu[sc.VERIFICATION_SOP_CLASS][0]
-                    for a in rq_prog[1:]:
-                        if a == 'RqSend':
-                            mid[0] += 1
-                            msg = dm.CEchoRQMessage()
-                            msg.message_id = mid[0]
-                            msg.sop_class_uid = sc.VERIFICATION_SOP_CLASS
-                            sync.before('Rq', a)
-                            assoc.send(msg, pcid)
-                            sync.emit('Rq', a)
-                        elif a == 'RqWait':
-                            sync.before('Rq', a)
-                            sync.emit('Rq', a)
-                            try:
-                                assoc.receive()
-                            except exceptions.AssociationAbortedError as e:
-                                sync.emit('Rq', 'RqRecv', res='AB', f=[e.source, e.reason_diag])
-                                raise
-                            except exceptions.AssociationReleasedError:
-                                sync.emit('Rq', 'RqRecv', res='RLRQ', f=[])
-                                raise
-                            except exceptions.DCMTimeoutError:
-                                sync.emit('Rq', 'RqTimeout')
-                                raise
-                            sync.emit('Rq', 'RqRecv', res='PD', f=[])
-                        elif a == 'RqAbort':
-                            sync.before('Rq', a)
-                            assoc.abort(rq_reason)
-                            sync.emit('Rq', a, r=rq_reason)
-                            raise _Leave()
-                        elif a == 'RqExitNormal':
-                            sync.before('Rq', a)
-                            sync.emit('Rq', a)
-                            break
-                        elif a == 'RqExitError':
-                            sync.before('Rq', a)
-                            sync.emit('Rq', a)
-                            raise UserError('application failure')
-                    else:
-                        sync.emit('Rq', 'RqExitNormal')       # the program ran out (the library decided otherwise than
-                                                              # the behaviour followed): the block simply ends here
-                except BaseException as exc:
-                    if not cm.__exit__(type(exc), exc, exc.__traceback__):
-                        raise
-                else:
+                    sync.before('Rq', 'RqRequest')
+                    sync.emit('Rq', 'RqRequest')
                     try:
-                        cm.__exit__(None, None, None)
-                    except exceptions.DCMTimeoutError:
-                        sync.emit('Rq', 'RqTimeout')          # release() gave up waiting
+                        cm = cl.request_association(REMOTE)
+                        assoc = cm.__enter__()
+                    except exceptions.AssociationRejectedError as e:
+                        sync.emit('Rq', 'RqAssocInd', res='RJ', f=[e.result, e.source, e.diagnostic])
                         raise
-                    sync.emit('Rq', 'RqRelDone')
-            except _Leave:
-                pass
-            except exceptions.AssociationRejectedError as e:
-                obs['rqErr'] = {'type': 'AssociationRejectedError', 'f': [e.result, e.source, e.diagnostic]}
-            except exceptions.AssociationAbortedError as e:
-                obs['rqErr'] = {'type': 'AssociationAbortedError', 'f': [e.source, e.reason_diag]}
-            except exceptions.AssociationReleasedError:
-                obs['rqErr'] = {'type': 'AssociationReleasedError', 'f': []}
-            except UserError:
-                obs['rqErr'] = {'type': 'UserError', 'f': []}
-            except exceptions.DCMTimeoutError:
-                obs['rqErr'] = {'type': 'DCMTimeoutError', 'f': []}
-            except Exception as e:          # noqa
-                obs['rqErr'] = {'type': type(e).__name__, 'f': []}
+                    except exceptions.AssociationAbortedError as e:
+                        sync.emit('Rq', 'RqAssocInd', res='AB', f=[e.source, e.reason_diag])
+                        raise
+                    except exceptions.DCMTimeoutError:
+                        sync.emit('Rq', 'RqTimeout')
+                        raise
+                    sync.emit('Rq', 'RqAssocInd', res='AC', f=[])
+                    obs['entered'] = True
+                    try:
+                        pcid = assoc.sop_classes_as_scu[sc.VERIFICATION_SOP_CLASS][0]
+                        for a in rq_prog[1:]:
+                            if a == 'RqSend':
+                                mid[0] += 1
+                                msg = dm.CEchoRQMessage()
+                                msg.message_id = mid[0]
+                                msg.sop_class_uid = sc.VERIFICATION_SOP_CLASS
+                                sync.before('Rq', a)
+                                assoc.send(msg, pcid)
+                                sync.emit('Rq', a)
+                            elif a == 'RqWait':
+                                sync.before('Rq', a)
+                                sync.emit('Rq', a)
+                                try:
+                                    assoc.receive()
+                                except exceptions.AssociationAbortedError as e:
+                                    sync.emit('Rq', 'RqRecv', res='AB', f=[e.source, e.reason_diag])
+                                    raise
+                                except exceptions.AssociationReleasedError:
+                                    sync.emit('Rq', 'RqRecv', res='RLRQ', f=[])
+                                    raise
+                                except exceptions.DCMTimeoutError:
+                                    sync.emit('Rq', 'RqTimeout')
+                                    raise
+                                sync.emit('Rq', 'RqRecv', res='PD', f=[])
+                            elif a == 'RqAbort':
+                                sync.before('Rq', a)
+                                assoc.abort(rq_reason)
+                                sync.emit('Rq', a, r=rq_reason)
+                                raise _Leave()
+                            elif a == 'RqExitNormal':
+                                sync.before('Rq', a)
+                                sync.emit('Rq', a)
+                                break
+                            elif a == 'RqExitError':
+                                sync.before('Rq', a)
+                                sync.emit('Rq', a)
+                                raise UserError('application failure')
+                        else:
+                            sync.emit('Rq', 'RqExitNormal')       # the program ran out (the library decided otherwise than
+                                                                  # the behaviour followed): the block simply ends here
+                    except BaseException as exc:
+                        if not cm.__exit__(type(exc), exc, exc.__traceback__):
+                            raise
+                    else:
+                        try:
+                            cm.__exit__(None, None, None)
+                        except exceptions.DCMTimeoutError:
+                            sync.emit('Rq', 'RqTimeout')          # release() gave up waiting
+                            raise
+                        sync.emit('Rq', 'RqRelDone')
+                except _Leave:
+                    pass
+                except exceptions.AssociationRejectedError as e:
+                    obs['rqErr'] = {'type': 'AssociationRejectedError', 'f': [e.result, e.source, e.diagnostic]}
+                except exceptions.AssociationAbortedError as e:
+                    obs['rqErr'] = {'type': 'AssociationAbortedError', 'f': [e.source, e.reason_diag]}
+                except exceptions.AssociationReleasedError:
+                    obs['rqErr'] = {'type': 'AssociationReleasedError', 'f': []}
+                except UserError:
+                    obs['rqErr'] = {'type': 'UserError', 'f': []}
+                except exceptions.DCMTimeoutError:
+                    obs['rqErr'] = {'type': 'DCMTimeoutError', 'f': []}
+                except Exception as e:          # noqa
+                    obs['rqErr'] = {'type': type(e).__name__, 'f': []}
+            if in_handler:
+                # the application opens and uses the association while it is handling an unrelated exception of its own
+                try:
+                    raise KeyError('an unrelated error the application is dealing with')
+                except KeyError:
+                    rq_flow()
+            else:
+                rq_flow()
             finished = net.wait_all(20)
             link = net.links[0] if net.links else {'log': []}
             obs['r2a'] = _wire(link, 'R')
@@ -391,6 +400,9 @@ def plan(tier, rng):
             for s in sorted(picks):
                 jobs.append((list(s), values()))
             jobs.append((list(ss[0]), dict(values(), ordered=False)))
+    for k, (sc_, kw) in enumerate(jobs):
+        if k % 3 == 1:
+            kw['in_handler'] = True
     # refusal: every triple of the value classes
     refuse = [s for s, _ in jobs if 'AcRefuse' in s][0]
     for t in triples:
